@@ -13,6 +13,7 @@ import (
 
 // State is one symbolic path state.  Maps are copied at forks.
 type State struct {
+	inl []*ssa.Function // functions whose bodies are currently being inlined on this path
 	vals   map[ssa.Value]Val
 	heap   map[*Obj]Val
 	facts  []*Term
@@ -60,6 +61,7 @@ func (st *State) clone() *State {
 		epoch:  st.epoch,
 		guards: st.guards,
 		stops:  st.stops[:len(st.stops):len(st.stops)],
+		inl:    st.inl[:len(st.inl):len(st.inl)],
 	}
 	for k, v := range st.vals {
 		n.vals[k] = v
